@@ -368,6 +368,25 @@ func c18(r *Run) {
 			}
 		})
 		r.ob("C18.R4:round-robin-index", "round-robin picks polls[atomic.Add(&accepted,1) % pollSize]: consecutive picks walk the pool", rr, nil, ok, "index = Add(&accepted,1) % pollSize", true)
+		// ... and the counter only ever advances there: Pick runs concurrently, a reset (CAS/Store/Swap to wrap the counter) that
+		// races with another Pick's Add repeats or skips positions and the per-poller counts drift apart
+		{
+			var bad ssa.Instruction
+			nAdd := 0
+			forEachIns(rr, func(i ssa.Instruction) {
+				if a := asAtomic(i); a != nil && structFieldOfAddr(a.Addr) == "roundRobinLB.accepted" {
+					if a.Op == "Add" {
+						nAdd++
+					} else if a.Op != "Load" {
+						bad = i
+					}
+				}
+				if isStoreToField(i, "roundRobinLB", "accepted") {
+					bad = i
+				}
+			})
+			r.ob("C18.R4:counter-only-advances", "the round-robin counter is touched in Pick by exactly one atomic Add and nothing else: concurrent Picks each take a distinct consecutive value", rr, bad, bad == nil && nAdd == 1, fmt.Sprintf("%d Add, no other write", nAdd), true)
+		}
 		for _, name := range []string{"(*roundRobinLB).Rebalance", "(*randomLB).Rebalance"} {
 			f := w.MustFn(name)
 			sets := 0
